@@ -1734,6 +1734,19 @@ func (lc *LightningChannel) restoreStateLogs(
 		lc.updateLogs.Local.restoreHtlc(&htlc)
 	}
 
+	// Restore unsigned acked local log updates so we expect the peer to
+	// sign for them. These updates are already part of the remote
+	// commitment, so they are older than any update of a dangling commit
+	// restored below and must be put into the local log first: the log is
+	// evaluated in order and e.g. the last fee update in it is the one
+	// that counts.
+	err := lc.restorePeerLocalUpdates(
+		remoteUnsignedLocalUpdates, remoteCommitment.height,
+	)
+	if err != nil {
+		return err
+	}
+
 	// If we have a dangling (un-acked) commit for the remote party, then we
 	// restore the updates leading up to this commit.
 	if pendingRemoteCommit != nil {
@@ -1747,18 +1760,9 @@ func (lc *LightningChannel) restoreStateLogs(
 
 	// Restore unsigned acked remote log updates so that we can include them
 	// in our next signature.
-	err := lc.restorePendingRemoteUpdates(
+	return lc.restorePendingRemoteUpdates(
 		unsignedAckedUpdates, localCommitment.height,
 		pendingRemoteCommit,
-	)
-	if err != nil {
-		return err
-	}
-
-	// Restore unsigned acked local log updates so we expect the peer to
-	// sign for them.
-	return lc.restorePeerLocalUpdates(
-		remoteUnsignedLocalUpdates, remoteCommitment.height,
 	)
 }
 
